@@ -69,6 +69,7 @@ class VNotImpl(V):
 @dataclass
 class VStr(V):
     t: Any                       # z3 String
+    tmpl: Any = None             # structure of a formatted string (f-string)
 
 
 @dataclass
